@@ -1,10 +1,9 @@
--- driver for C18 (stub)
-def step (_line : String) : String := "bad-op"
-
+import GrcovModel.Drv.C18
+-- native driver for C18 (`gm_c18`): one request per line, one answer per line
 partial def loop (h : IO.FS.Stream) (out : IO.FS.Stream) : IO Unit := do
   let line ← h.getLine
   if line.isEmpty then return ()
-  out.putStrLn (step line)
+  out.putStrLn (Grcov.Drv.C18.step line)
   loop h out
 
 def main : IO Unit := do
